@@ -346,6 +346,7 @@ def run(ctx, rep_):
     names_have_element_types(F, rep_)
     void_is_not_an_element(F, rep_)
     self_type_is_its_class(F, rep_)
+    class_types_compare_their_members(F, rep_)
     open_coercion_compares_with_the_result(F, rep_)
     strings_have_no_slots(F, rep_)
     only_methods_get_the_object(F, rep_)
@@ -879,6 +880,35 @@ def void_is_not_an_element(F, rep, rule="C02.void-value"):
         rep.ob(rule, "%s: a sub-expression of type Void is refused (the generator's instruction needs its value)" % label, verdict, detail, f.span, fn=f.path,
                key="%s|%s" % (rule, mir.short(path)))
     rep.floor(rule + " sinks judged", n, 1)
+
+
+def class_types_compare_their_members(F, rep, rule="C02.class-identity"):
+    """Two class types are one type only if they are the same class.  A class can be declared in any block, and a function body may declare a class
+    under the name of an outer one: the two share name and file.  What tells them apart in `==` (the first question eq_complex asks, and the only one
+    for classes) is the member list.  The equality of ClassType therefore compares the members of the two operands (and their names and files):
+    each `==` between a field of self and the same field of other is read from the body, derived or hand-written."""
+    eqs = [g for g in F.crates["compiler"].fns if g.kind != "Closure" and "class::ClassType as core::cmp::PartialEq>::eq" in g.path]
+    if len(eqs) != 1:
+        raise AnchorMissing("<ClassType as PartialEq>::eq")
+    g = eqs[0]
+    compared = set()
+    for c in g.calls():
+        if not c.callee().endswith(("::eq", "::ne")) or len(c.args) < 2:
+            continue
+        sides = []
+        for a in c.args[:2]:
+            l = op_local(a)
+            sides.append({(o, fs[0]) for (o, fs) in rules.trace_paths(g, l) if fs} if l is not None else set())
+        for (o1, f1) in sides[0]:
+            for (o2, f2) in sides[1]:
+                if f1 == f2 and {o1, o2} == {("arg", 1), ("arg", 2)}:
+                    compared.add(f1)
+    want = {"name", "fields", "path_str"}
+    missing = sorted(want - compared)
+    rep.ob(rule, "ClassType == ClassType compares name, declaring file and members", "violated" if missing else "ok",
+           ("not compared: %s.  `class Point { x: int .. }` and a `class Point { label: str .. }` declared in a function body of the same file are one type: "
+            "`fn() -> Point { class Point {..} return Point() }` is accepted and `.x` fails in `lookup` at run time" % missing) if missing else
+           "fields compared: %s" % sorted(compared), g.span, fn=g.path, key=rule)
 
 
 def self_type_is_its_class(F, rep, rule="C02.self-type"):
